@@ -3523,7 +3523,838 @@ def coroutine_invariant_spellings_cases():
             yield {"dom": "directed", "name": "coroutine_invariant_spellings", "spelling": spelling, "check_on": check_on}
 
 
-SCENARIOS = {"awaitable_kinds": awaitable_kinds, "wrapped_async_public_method": wrapped_async_public_method, "odd_member_names": odd_member_names, "member_attached_later": member_attached_later, "partial_binding_a_parameter_name": partial_binding_a_parameter_name, "odd_capture_callables": odd_capture_callables, "error_function_called_every_time": error_function_called_every_time, "method_contracts_during_reentry": method_contracts_during_reentry, "constructor_interrupted": constructor_interrupted, "first_calls_at_the_same_moment": first_calls_at_the_same_moment, "base_call_while_override_runs": base_call_while_override_runs, "constructor_keyword_named_cls": constructor_keyword_named_cls, "property_docstrings": property_docstrings, "functions_from_one_definition": functions_from_one_definition, "late_decoration_of_inheriting_accessor": late_decoration_of_inheriting_accessor, "reserved_placeholders_without_var_keyword": reserved_placeholders_without_var_keyword, "coroutine_invariant_spellings": coroutine_invariant_spellings, "default_limits": default_limits, "one_function_in_two_roles": one_function_in_two_roles, "callable_exception_instance": callable_exception_instance, "contracts_on_bound_methods": contracts_on_bound_methods, "rejected_constructions_do_not_accumulate": rejected_constructions_do_not_accumulate, "sometimes_awaitable_condition": sometimes_awaitable_condition, "property_inherited_into_class_with_invariants": property_inherited_into_class_with_invariants, "members_from_invariantless_bases": members_from_invariantless_bases, "invariants_while_another_thread_reports": invariants_while_another_thread_reports, "separation_in_every_interpreter_mode": separation_in_every_interpreter_mode, "falsy_and_truthy_values": falsy_and_truthy_values, "special_results": special_results, "contracts_on_partial": contracts_on_partial, "error_functions_sharing_code": error_functions_sharing_code, "closed_from_another_context": closed_from_another_context, "proxies_and_nested_constructors": proxies_and_nested_constructors, "member_added_between_invariants": member_added_between_invariants, "integrator_snapshot_without_postcondition": integrator_snapshot_without_postcondition, "exception_from_new": exception_from_new, "interrupt_while_message_is_built": interrupt_while_message_is_built, "concurrent_constructors_without_init": concurrent_constructors_without_init, "async_def_spelling": async_def_spelling, "class_keyword_arguments": class_keyword_arguments, "reserved_keyword_after_valid_calls": reserved_keyword_after_valid_calls, "call_while_constructor_runs": call_while_constructor_runs, "constructor_calls_back": constructor_calls_back, "contract_calls_same_method_of_fresh_object": contract_calls_same_method_of_fresh_object, "odd_exception_classes": odd_exception_classes, "sync_layer_over_coroutine": sync_layer_over_coroutine, "keyword_named_self": keyword_named_self, "decorating_another_function": decorating_another_function, "late_decoration_of_inheriting_override": late_decoration_of_inheriting_override, "used_before_override": used_before_override, "rewritten_file": rewritten_file, "shared_decorator": shared_decorator, "construct_inside_contract": construct_inside_contract,
+# --------------------------------------------------------------------------- round 12
+
+def generator_functions(case):
+    """a contracted GENERATOR function is checked when it is CALLED, like any other callable - not when the generator is
+    first iterated"""
+    def positive(x):
+        return x > 0
+
+    if case["shape"] == "function":
+        @icontract.require(positive)
+        def gen(x):
+            yield x
+            yield x + 1
+        call = gen
+    elif case["shape"] == "method":
+        class A:
+            @icontract.require(positive)
+            def gen(self, x):
+                yield x
+                yield x + 1
+        call = A().gen
+    else:
+        class B(icontract.DBC):
+            @icontract.require(positive)
+            def gen(self, x):
+                yield x
+
+        class C(B):
+            def gen(self, x):
+                yield x
+                yield x + 1
+        call = C().gen
+    fails = []
+    try:
+        g = call(-1)
+        fails.append("%s: the violating call gen(-1) returned %s instead of raising" % (case["shape"], type(g).__name__))
+    except icontract.ViolationError:
+        pass
+    except BaseException as e:  # noqa: B902
+        fails.append("%s: gen(-1) raised %s" % (case["shape"], type(e).__name__))
+    box = [5]
+
+    def first_positive(xs):
+        return xs[0] > 0
+
+    @icontract.require(first_positive)
+    def walk(xs):
+        yield from xs
+
+    g = walk(box)
+    box[0] = -5            # changed AFTER the (satisfying) call: the call was judged on the arguments it was made with
+    try:
+        got = list(g)
+        if got != [-5]:
+            fails.append("the generator yielded %s" % got)
+    except icontract.ViolationError:
+        fails.append("the precondition was evaluated when the generator was iterated, not when the function was called")
+    try:
+        if list(call(3))[:2] != [3, 4]:
+            fails.append("%s: a valid call yields %s" % (case["shape"], list(call(3))))
+    except BaseException as e:  # noqa: B902
+        fails.append("%s: a valid call raised %s" % (case["shape"], type(e).__name__))
+    return {"fails": fails}
+
+
+def generator_functions_cases():
+    for shape in ("function", "method", "inherited"):
+        yield {"dom": "directed", "name": "generator_functions", "shape": shape}
+
+
+def post_init_inherits(case):
+    """`__post_init__` is an ordinary method for the library: an override inherits the contracts of the base's (only
+    `__init__` and `__new__` are exempt)"""
+    import dataclasses
+    evaluated = []
+
+    def total_ok(self):
+        evaluated.append("post")
+        return self.total >= 0
+
+    def price_ok(self):
+        evaluated.append("pre")
+        return self.price >= 0
+
+    @dataclasses.dataclass
+    class Order(icontract.DBC):
+        price: int = 0
+        total: int = dataclasses.field(default=0, init=False)
+
+        @icontract.require(price_ok)
+        @icontract.ensure(total_ok)
+        def __post_init__(self):
+            self.total = self.price
+
+    if case["own"]:
+        def discount_ok(self):
+            return self.discount >= 0
+
+        @dataclasses.dataclass
+        class Discounted(Order):
+            discount: int = 0
+
+            @icontract.ensure(discount_ok)
+            def __post_init__(self):
+                self.total = self.price - self.discount
+    else:
+        @dataclasses.dataclass
+        class Discounted(Order):
+            discount: int = 0
+
+            def __post_init__(self):
+                self.total = self.price - self.discount
+    fails = []
+    for kwargs, want in (({"price": 10, "discount": 3}, "ok"), ({"price": 10, "discount": 30}, "violation"), ({"price": -1, "discount": 0}, "violation")):
+        del evaluated[:]
+        try:
+            Discounted(**kwargs)
+            got = "ok"
+        except icontract.ViolationError:
+            got = "violation"
+        except BaseException as e:  # noqa: B902
+            got = "raised %s" % type(e).__name__
+        if got != want:
+            fails.append("Discounted(%s): %s, expected %s (inherited contracts of __post_init__ evaluated: %s)" % (kwargs, got, want, evaluated))
+    return {"fails": fails}
+
+
+def post_init_inherits_cases():
+    for own in (False, True):
+        yield {"dom": "directed", "name": "post_init_inherits", "own": own}
+
+
+def descriptor_members(case):
+    """public members that reach the class through other descriptors than plain functions and `property` itself -
+    functools.partialmethod, sub-classes of property, async generator methods - are guarded (or left working) like
+    their plain counterparts"""
+    import functools
+    log = []
+
+    def inv(self):
+        log.append("inv")
+        return self.state >= 0
+
+    class documented_property(property):
+        """a project-specific flavour of property"""
+
+    class getter_only(property):
+        """a read-only flavour whose constructor takes the getter and nothing else"""
+
+        def __init__(self, fget):
+            super().__init__(fget)
+
+    @icontract.invariant(inv)
+    class A:
+        def __init__(self):
+            self.state = 0
+
+        def set_state(self, v):
+            self.state = v
+
+        kill = functools.partialmethod(set_state, -1)
+        revive = functools.partialmethod(set_state, 1)
+
+        @documented_property
+        def level(self):
+            return self.state
+
+        @level.setter
+        def level(self, v):
+            self.state = v
+
+        @getter_only
+        def ro(self):
+            return self.state
+
+        async def ticks(self):
+            yield 1
+            yield 2
+
+    fails = []
+    a = A()
+    del log[:]
+    a.revive()
+    if log != ["inv", "inv"]:
+        fails.append("a partialmethod member: the invariant was evaluated %s around it, expected twice" % log)
+    try:
+        a.kill()
+        fails.append("a partialmethod member that breaks the invariant returned normally")
+    except icontract.ViolationError:
+        pass
+    a.state = 0
+    del log[:]
+    a.level
+    if log != ["inv", "inv"]:
+        fails.append("the getter of a property sub-class: the invariant was evaluated %s around it, expected twice" % log)
+    try:
+        a.level = -5
+        fails.append("the setter of a property sub-class that breaks the invariant returned normally")
+    except icontract.ViolationError:
+        pass
+    a.state = 0
+    try:
+        if a.ro != 0:
+            fails.append("a read-only property sub-class gives %r" % a.ro)
+    except BaseException as e:  # noqa: B902
+        fails.append("reading a read-only property sub-class raised %s" % type(e).__name__)
+
+    async def collect():
+        return [t async for t in a.ticks()]
+    try:
+        if _drive_all(collect()) != [1, 2]:
+            fails.append("an async generator method no longer yields its items")
+    except BaseException as e:  # noqa: B902
+        fails.append("iterating an async generator method raised %s: %s" % (type(e).__name__, str(e)[:80]))
+    return {"fails": fails}
+
+
+def descriptor_members_cases():
+    yield {"dom": "directed", "name": "descriptor_members"}
+
+
+def abstract_redeclaration(case):
+    """a class in the MIDDLE of a hierarchy re-declares an abstract method without contracts: the concrete class below
+    still inherits what the top declared"""
+    import abc
+
+    def positive(x):
+        return x > 0
+
+    def small(result):
+        return result < 100
+
+    kind = case["kind"]
+
+    def deco(f):
+        return {"function": lambda g: g, "static": staticmethod, "class": classmethod}[kind](f)
+
+    class Shape(icontract.DBC):
+        if kind == "function":
+            @abc.abstractmethod
+            @icontract.require(positive)
+            @icontract.ensure(small)
+            def scale(self, x):
+                raise NotImplementedError()
+        elif kind == "static":
+            @staticmethod
+            @abc.abstractmethod
+            @icontract.require(positive)
+            @icontract.ensure(small)
+            def scale(x):
+                raise NotImplementedError()
+        else:
+            @classmethod
+            @abc.abstractmethod
+            @icontract.require(positive)
+            @icontract.ensure(small)
+            def scale(cls, x):
+                raise NotImplementedError()
+
+    class Polygon(Shape):
+        if kind == "function":
+            @abc.abstractmethod
+            def scale(self, x):
+                raise NotImplementedError()
+        elif kind == "static":
+            @staticmethod
+            @abc.abstractmethod
+            def scale(x):
+                raise NotImplementedError()
+        else:
+            @classmethod
+            @abc.abstractmethod
+            def scale(cls, x):
+                raise NotImplementedError()
+
+    class Square(Polygon):
+        if kind == "function":
+            def scale(self, x):
+                return x * 2
+        elif kind == "static":
+            @staticmethod
+            def scale(x):
+                return x * 2
+        else:
+            @classmethod
+            def scale(cls, x):
+                return x * 2
+
+    fails = []
+    for x, want in ((3, "ok"), (-3, "violation"), (70, "violation")):
+        try:
+            Square().scale(x)
+            got = "ok"
+        except icontract.ViolationError:
+            got = "violation"
+        except BaseException as e:  # noqa: B902
+            got = "raised %s" % type(e).__name__
+        if got != want:
+            fails.append("%s: Square().scale(%d): %s, expected %s (contracts declared two levels up)" % (kind, x, got, want))
+    return {"fails": fails}
+
+
+def abstract_redeclaration_cases():
+    for kind in ("function", "static", "class"):
+        yield {"dom": "directed", "name": "abstract_redeclaration", "kind": kind}
+
+
+def base_exception_error_classes(case):
+    """`error` given as a class that derives from BaseException but not from Exception (SystemExit, KeyboardInterrupt,
+    asyncio.CancelledError, an own class): a violation raises exactly that class, with the violation message"""
+    import asyncio
+
+    class Abort(BaseException):
+        pass
+
+    cls = {"SystemExit": SystemExit, "KeyboardInterrupt": KeyboardInterrupt, "CancelledError": asyncio.CancelledError, "own": Abort,
+           "GeneratorExit": GeneratorExit}[case["error"]]
+
+    def positive(x):
+        return x > 0
+
+    role = case["role"]
+    if role == "require":
+        @icontract.require(positive, error=cls)
+        def f(x):
+            return x
+        call = f
+    elif role == "ensure":
+        def result_positive(result):
+            return result > 0
+
+        @icontract.ensure(result_positive, error=cls)
+        def f(x):
+            return x
+        call = f
+    elif role == "async":
+        @icontract.require(positive, error=cls)
+        async def f(x):
+            return x
+        call = lambda x: _drive_all(f(x))  # noqa: E731
+    else:
+        def state_positive(self):
+            return self.x > 0
+
+        @icontract.invariant(state_positive, error=cls)
+        class A:
+            def __init__(self, x):
+                self.x = x
+        call = A
+    try:
+        call(-1)
+        got = "returned"
+    except cls as e:
+        got = "ok" if type(e) is cls and "positive" in str(e) else "raised %s with message %r" % (type(e).__name__, str(e)[:60])
+    except BaseException as e:  # noqa: B902
+        got = "raised %s: %s" % (type(e).__name__, str(e)[:80])
+    return {"fails": [] if got == "ok" else ["%s with error=%s: %s, expected the violation raised as %s" % (role, case["error"], got, case["error"])]}
+
+
+def base_exception_error_classes_cases():
+    for role in ("require", "ensure", "async", "invariant"):
+        for error in ("SystemExit", "KeyboardInterrupt", "CancelledError", "own", "GeneratorExit"):
+            yield {"dom": "directed", "name": "base_exception_error_classes", "role": role, "error": error}
+
+
+def wrapper_above_inheriting_override(case):
+    """an override in a DBC hierarchy carries a foreign functools.wraps decorator ABOVE its own contract: the inherited
+    snapshot is captured, the own postcondition can read it and the inherited postcondition is enforced"""
+    import functools
+    captured = []
+
+    def cap(self):
+        captured.append("capture")
+        return list(self.items)
+
+    def grows(self, OLD):
+        return len(self.items) >= len(OLD.before)
+
+    def traced(fn):
+        @functools.wraps(fn)
+        def wrapper(*args, **kwargs):
+            return fn(*args, **kwargs)
+        return wrapper
+
+    class Base(icontract.DBC):
+        def __init__(self):
+            self.items = [1, 2]
+
+        @icontract.snapshot(cap, name="before")
+        @icontract.ensure(grows)
+        def change(self, drop):
+            pass
+
+    def by_one(self, OLD):
+        return abs(len(self.items) - len(OLD.before)) <= 1
+
+    class Derived(Base):
+        @traced
+        @icontract.ensure(by_one)
+        def change(self, drop):
+            if drop:
+                self.items.pop()
+            else:
+                self.items.append(0)
+
+    fails = []
+    for drop, want in ((False, "ok"), (True, "violation")):
+        del captured[:]
+        try:
+            Derived().change(drop)
+            got = "ok"
+        except icontract.ViolationError:
+            got = "violation"
+        except BaseException as e:  # noqa: B902
+            got = "raised %s: %s" % (type(e).__name__, str(e)[:80])
+        if got != want or captured != ["capture"]:
+            fails.append("Derived().change(drop=%s): %s with captures %s, expected %s with exactly one capture" % (drop, got, captured, want))
+    return {"fails": fails}
+
+
+def wrapper_above_inheriting_override_cases():
+    yield {"dom": "directed", "name": "wrapper_above_inheriting_override"}
+
+
+def error_function_bad_returns(case):
+    """an error function that does not return an exception - None (a forgotten return), a string, a number, a coroutine -
+    makes the violation surface as TypeError, whatever it returned"""
+    async def acoro():
+        return ValueError("x")
+
+    rets = {"None": (lambda: None), "str": (lambda: "boom"), "int": (lambda: 3), "tuple": (lambda: (ValueError, "x")), "coroutine": (lambda: acoro())}
+    ret = rets[case["returns"]]
+
+    def err(x):
+        return ret()
+
+    def positive(x):
+        return x > 0
+
+    if case["role"] == "require":
+        @icontract.require(positive, error=err)
+        def f(x):
+            return x
+        call = f
+    elif case["role"] == "ensure":
+        @icontract.ensure(lambda x, result: result > 0, error=err)
+        def f(x):
+            return x
+        call = f
+    else:
+        @icontract.require(positive, error=err)
+        async def f(x):
+            return x
+        call = lambda x: _drive_all(f(x))  # noqa: E731
+    import warnings
+    with warnings.catch_warnings():
+        warnings.simplefilter("ignore")
+        try:
+            call(-1)
+            got = "returned"
+        except TypeError:
+            got = "TypeError"
+        except BaseException as e:  # noqa: B902
+            got = type(e).__name__
+    return {"fails": [] if got == "TypeError" else ["%s: an error function returning %s: %s, expected TypeError" % (case["role"], case["returns"], got)]}
+
+
+def error_function_bad_returns_cases():
+    for role in ("require", "ensure", "async"):
+        for returns in ("None", "str", "int", "tuple", "coroutine"):
+            yield {"dom": "directed", "name": "error_function_bad_returns", "role": role, "returns": returns}
+
+
+def deep_nesting(case):
+    """public methods / constructors of MANY different objects with invariants nested in one another (a recursion over a long
+    linked structure): every object is verified, however deep it sits"""
+    import sys
+    checked = []
+
+    def fine(self):
+        checked.append(self.index)
+        return self.value >= 0
+
+    @icontract.invariant(fine)
+    class Node:
+        def __init__(self, index, rest=None):
+            self.index = index
+            self.value = 1
+            self.rest = rest
+
+        def total(self):
+            return self.value + (self.rest.total() if self.rest is not None else 0)
+
+    n = case["n"]
+    old = sys.getrecursionlimit()
+    sys.setrecursionlimit(max(old, 20 * n + 200))
+    fails = []
+    try:
+        head = None
+        nodes = []
+        for i in reversed(range(n)):
+            head = Node(i, head)
+            nodes.append(head)
+        nodes.reverse()
+        del checked[:]
+        head.total()
+        missing = [i for i in range(n) if checked.count(i) != 2]
+        if missing:
+            fails.append("total() over %d nested objects: the invariants of the objects %s... were not evaluated twice" % (n, missing[:5]))
+        for bad in (3, n // 2, n - 1):
+            object.__setattr__(nodes[bad], "value", -1)
+            try:
+                head.total()
+                fails.append("the invariant of object %d of %d is broken: total() returned normally" % (bad, n))
+            except icontract.ViolationError:
+                pass
+            object.__setattr__(nodes[bad], "value", 1)
+    finally:
+        sys.setrecursionlimit(old)
+    return {"fails": fails}
+
+
+def deep_nesting_cases():
+    for n in (10, 70, 100):
+        yield {"dom": "directed", "name": "deep_nesting", "n": n}
+
+
+def lenient_objects_as_condition_values(case):
+    """what a condition returns is judged by its truth value; an object that answers ANY attribute look-up (a lenient settings
+    / mock object) is no awaitable: the async twin judges it like the sync twin"""
+    class Lenient:
+        def __init__(self, truth):
+            self.truth = truth
+
+        def __getattr__(self, name):
+            if name.startswith("__") and name not in ("__await__",):
+                raise AttributeError(name)
+            return 0
+
+        def __bool__(self):
+            return self.truth
+
+    def cond(settings):
+        return settings
+
+    def post(settings, result):
+        return settings
+
+    if case["role"] == "require":
+        @icontract.require(cond)
+        def f(settings):
+            return 1
+
+        @icontract.require(cond)
+        async def af(settings):
+            return 1
+    else:
+        @icontract.ensure(post)
+        def f(settings):
+            return 1
+
+        @icontract.ensure(post)
+        async def af(settings):
+            return 1
+    fails = []
+    for truth in (True, False):
+        outs = []
+        for call in (lambda s: f(s), lambda s: _drive_all(af(s))):
+            try:
+                call(Lenient(truth))
+                outs.append("ok")
+            except icontract.ViolationError:
+                outs.append("violation")
+            except BaseException as e:  # noqa: B902
+                outs.append("raised %s" % type(e).__name__)
+        want = "ok" if truth else "violation"
+        if outs != [want, want]:
+            fails.append("%s returning an object that answers every attribute (truth %s): sync %s, async %s - expected %s for both"
+                         % (case["role"], truth, outs[0], outs[1], want))
+    return {"fails": fails}
+
+
+def lenient_objects_as_condition_values_cases():
+    for role in ("require", "ensure"):
+        yield {"dom": "directed", "name": "lenient_objects_as_condition_values", "role": role}
+
+
+def disabled_invariant_is_absent(case):
+    """a DISABLED invariant returns the class it was given and leaves it untouched - also when the class is a plain
+    sub-class of a class that has (enabled) invariants"""
+    def base_ok(self):
+        return self.x >= 0
+
+    def never(self):
+        raise AssertionError("the condition of a disabled invariant was called")
+
+    if case["base"] == "invariant":
+        @icontract.invariant(base_ok)
+        class Base:
+            def __init__(self):
+                self.x = 0
+    elif case["base"] == "dbc":
+        @icontract.invariant(base_ok)
+        class Base(icontract.DBC):
+            def __init__(self):
+                self.x = 0
+    else:
+        class Base:
+            def __init__(self):
+                self.x = 0
+
+    class Sub(Base):
+        def __init__(self):
+            super().__init__()
+            self.y = 0
+
+        def double_x(self):
+            self.x *= 2
+
+        def reset(self):
+            self.x = -1          # would break the base's invariant: but Sub's own members are not wrapped by anybody
+            self.x = 0
+
+        @property
+        def p(self):
+            return self.x
+
+    before = dict(vars(Sub))
+    out = icontract.invariant(never, enabled=False)(Sub)
+    fails = []
+    if out is not Sub:
+        fails.append("a disabled invariant returned another object than the class it was given")
+    changed = [k for k in set(before) | set(vars(Sub)) if before.get(k) is not vars(Sub).get(k)]
+    if changed:
+        fails.append("a disabled invariant on a sub-class of a class with %s changed the class attributes %s" % (case["base"], sorted(changed)))
+    return {"fails": fails}
+
+
+def disabled_invariant_is_absent_cases():
+    for base in ("invariant", "dbc", "plain"):
+        yield {"dom": "directed", "name": "disabled_invariant_is_absent", "base": base}
+
+
+def diamond_orders(case):
+    """with several bases the contracts are evaluated in the order of the bases: what the common ancestor demands comes
+    before what the first base adds, the first base's postconditions before the second's - a later one may rely on an
+    earlier one as a guard"""
+    log = []
+
+    def has_items(self):
+        log.append("base")
+        return self.items is not None
+
+    def first_small(self):
+        log.append("left")
+        return self.items[0] < 10
+
+    def anything(self):
+        log.append("right")
+        return True
+
+    @icontract.invariant(has_items)
+    class Base(icontract.DBC):
+        def __init__(self, items):
+            self.items = items
+
+        def touch(self):
+            pass
+
+    @icontract.invariant(first_small)
+    class Left(Base):
+        pass
+
+    @icontract.invariant(anything)
+    class Right(Base):
+        pass
+
+    class Bottom(Left, Right):
+        pass
+
+    fails = []
+    del log[:]
+    Bottom([1])
+    if "base" not in log or "left" not in log or log.index("base") > log.index("left"):
+        fails.append("after Bottom(...) the invariants were evaluated in the order %s: the common ancestor's must come before the first base's own" % log)
+    try:
+        Bottom(None)
+        fails.append("Bottom(None) was accepted")
+    except icontract.ViolationError:
+        pass
+    except BaseException as e:  # noqa: B902
+        fails.append("Bottom(None): %s escaped from an invariant that relies on the ancestor's as a guard" % type(e).__name__)
+    plog = []
+
+    def is_number(result):
+        plog.append("readable")
+        return isinstance(result, int)
+
+    def bounded(result):
+        plog.append("bounded")
+        return result < 100
+
+    class Readable(icontract.DBC):
+        @icontract.ensure(is_number)
+        def read(self):
+            return 0
+
+    class Bounded(icontract.DBC):
+        @icontract.ensure(bounded)
+        def read(self):
+            return 0
+
+    class Sensor(Readable, Bounded):
+        def __init__(self, v):
+            self.v = v
+
+        def read(self):
+            return self.v
+
+    del plog[:]
+    Sensor(5).read()
+    if plog != ["readable", "bounded"]:
+        fails.append("the postconditions inherited from (Readable, Bounded) were evaluated in the order %s" % plog)
+    try:
+        Sensor("x").read()
+        fails.append("Sensor('x').read() was accepted")
+    except icontract.ViolationError:
+        pass
+    except BaseException as e:  # noqa: B902
+        fails.append("Sensor('x').read(): %s escaped from the second base's postcondition - the first base's is its guard" % type(e).__name__)
+    return {"fails": fails}
+
+
+def diamond_orders_cases():
+    yield {"dom": "directed", "name": "diamond_orders"}
+
+
+def async_message_equals_sync(case):
+    """the message of a violated contract of an `async def` function is the message of the same contract on the same `def`
+    function: same lines for the condition's values AND for the remaining arguments of the call"""
+    src = (
+        "import icontract\n"
+        "@icontract.%(deco)s(lambda %(params)s: %(cond)s)\n"
+        "def f(x, factor=2, *, offset=0):\n"
+        "    return x\n"
+        "@icontract.%(deco)s(lambda %(params)s: %(cond)s)\n"
+        "async def af(x, factor=2, *, offset=0):\n"
+        "    return x\n"
+    ) % {"deco": case["deco"], "params": case["params"], "cond": case["cond"]}
+    import os
+    import tempfile
+    import importlib.util
+    d = tempfile.mkdtemp(prefix="verif_msg_")
+    path = os.path.join(d, "verif_msg_mod_%d.py" % abs(hash(src)))
+    with open(path, "w") as fh:
+        fh.write(src)
+    spec = importlib.util.spec_from_file_location(os.path.basename(path)[:-3], path)
+    mod = importlib.util.module_from_spec(spec)
+    spec.loader.exec_module(mod)
+    msgs = []
+    for call in (lambda: mod.f(-1, 3, offset=4), lambda: _drive_all(mod.af(-1, 3, offset=4))):
+        try:
+            call()
+            msgs.append("returned")
+        except icontract.ViolationError as e:
+            text = str(e)
+            msgs.append("\n".join(text.split("\n")[1:]))          # (the first line names the line of the decorator)
+        except BaseException as e:  # noqa: B902
+            msgs.append("raised %s" % type(e).__name__)
+    import shutil
+    shutil.rmtree(d, ignore_errors=True)
+    fails = []
+    if msgs[0] != msgs[1]:
+        fails.append("%s(lambda %s: %s): the message of the async function differs:\n%s\n--- sync ---\n%s" % (case["deco"], case["params"], case["cond"], msgs[1], msgs[0]))
+    for name in ("factor was 3", "offset was 4", "x was -1"):
+        if name not in msgs[0]:
+            fails.append("the sync message lacks `%s`:\n%s" % (name, msgs[0]))
+    return {"fails": fails}
+
+
+def async_message_equals_sync_cases():
+    for deco, params, cond in (("require", "x", "x > 0"), ("ensure", "result", "result > 0"), ("ensure", "x, result", "result > x + 10"),
+                               ("require", "x, factor", "x * factor > 0")):
+        yield {"dom": "directed", "name": "async_message_equals_sync", "deco": deco, "params": params, "cond": cond}
+
+
+def method_aliased_as_setattr_in_subclass(case):
+    """a sub-class binds an inherited public method under another role (`__setattr__ = Base.store`): the base's method keeps
+    checking what it checked before"""
+    def level_ok(self):
+        return self.__dict__.get("level", 0) >= 0
+
+    def size_ok(self):
+        return self.__dict__.get("size", 0) >= 0
+
+    @icontract.invariant(level_ok, check_on=icontract.InvariantCheckEvent.CALL)
+    @icontract.invariant(size_ok, check_on=icontract.InvariantCheckEvent.SETATTR)
+    class Base(icontract.DBC):
+        def __init__(self):
+            pass
+
+        def store(self, name, value):
+            self.__dict__[name] = value
+
+    def verdicts():
+        out = []
+        for name in ("level", "size"):
+            b = Base()
+            try:
+                b.store(name, -1)
+                out.append("ok")
+            except icontract.ViolationError:
+                out.append("violation")
+            except BaseException as e:  # noqa: B902
+                out.append(type(e).__name__)
+        return out
+
+    before = verdicts()
+    try:
+        class Sub(Base):
+            __setattr__ = Base.store
+    except BaseException as e:  # noqa: B902
+        return {"fails": ["defining the sub-class raised %s" % type(e).__name__]}
+    after = verdicts()
+    return {"fails": [] if before == after else ["Base().store(level=-1 / size=-1) gave %s before the sub-class aliased the method as __setattr__, %s after" % (before, after)]}
+
+
+def method_aliased_as_setattr_in_subclass_cases():
+    yield {"dom": "directed", "name": "method_aliased_as_setattr_in_subclass"}
+
+
+SCENARIOS = {"generator_functions": generator_functions, "post_init_inherits": post_init_inherits, "descriptor_members": descriptor_members, "abstract_redeclaration": abstract_redeclaration, "base_exception_error_classes": base_exception_error_classes, "wrapper_above_inheriting_override": wrapper_above_inheriting_override, "error_function_bad_returns": error_function_bad_returns, "deep_nesting": deep_nesting, "lenient_objects_as_condition_values": lenient_objects_as_condition_values, "disabled_invariant_is_absent": disabled_invariant_is_absent, "diamond_orders": diamond_orders, "async_message_equals_sync": async_message_equals_sync, "method_aliased_as_setattr_in_subclass": method_aliased_as_setattr_in_subclass, "awaitable_kinds": awaitable_kinds, "wrapped_async_public_method": wrapped_async_public_method, "odd_member_names": odd_member_names, "member_attached_later": member_attached_later, "partial_binding_a_parameter_name": partial_binding_a_parameter_name, "odd_capture_callables": odd_capture_callables, "error_function_called_every_time": error_function_called_every_time, "method_contracts_during_reentry": method_contracts_during_reentry, "constructor_interrupted": constructor_interrupted, "first_calls_at_the_same_moment": first_calls_at_the_same_moment, "base_call_while_override_runs": base_call_while_override_runs, "constructor_keyword_named_cls": constructor_keyword_named_cls, "property_docstrings": property_docstrings, "functions_from_one_definition": functions_from_one_definition, "late_decoration_of_inheriting_accessor": late_decoration_of_inheriting_accessor, "reserved_placeholders_without_var_keyword": reserved_placeholders_without_var_keyword, "coroutine_invariant_spellings": coroutine_invariant_spellings, "default_limits": default_limits, "one_function_in_two_roles": one_function_in_two_roles, "callable_exception_instance": callable_exception_instance, "contracts_on_bound_methods": contracts_on_bound_methods, "rejected_constructions_do_not_accumulate": rejected_constructions_do_not_accumulate, "sometimes_awaitable_condition": sometimes_awaitable_condition, "property_inherited_into_class_with_invariants": property_inherited_into_class_with_invariants, "members_from_invariantless_bases": members_from_invariantless_bases, "invariants_while_another_thread_reports": invariants_while_another_thread_reports, "separation_in_every_interpreter_mode": separation_in_every_interpreter_mode, "falsy_and_truthy_values": falsy_and_truthy_values, "special_results": special_results, "contracts_on_partial": contracts_on_partial, "error_functions_sharing_code": error_functions_sharing_code, "closed_from_another_context": closed_from_another_context, "proxies_and_nested_constructors": proxies_and_nested_constructors, "member_added_between_invariants": member_added_between_invariants, "integrator_snapshot_without_postcondition": integrator_snapshot_without_postcondition, "exception_from_new": exception_from_new, "interrupt_while_message_is_built": interrupt_while_message_is_built, "concurrent_constructors_without_init": concurrent_constructors_without_init, "async_def_spelling": async_def_spelling, "class_keyword_arguments": class_keyword_arguments, "reserved_keyword_after_valid_calls": reserved_keyword_after_valid_calls, "call_while_constructor_runs": call_while_constructor_runs, "constructor_calls_back": constructor_calls_back, "contract_calls_same_method_of_fresh_object": contract_calls_same_method_of_fresh_object, "odd_exception_classes": odd_exception_classes, "sync_layer_over_coroutine": sync_layer_over_coroutine, "keyword_named_self": keyword_named_self, "decorating_another_function": decorating_another_function, "late_decoration_of_inheriting_override": late_decoration_of_inheriting_override, "used_before_override": used_before_override, "rewritten_file": rewritten_file, "shared_decorator": shared_decorator, "construct_inside_contract": construct_inside_contract,
              "cancelled_in_body": cancelled_in_body, "recreated_class": recreated_class}
 
 
